@@ -208,6 +208,13 @@ func refLookup(exprs []Expr, flags, truth []bool, path string) (int, []int) {
 	return -1, matching
 }
 
+// RefLookup is the reference decision for other checks (C06 uses it as the model of "what a fresh load matches").
+func RefLookup(exprs []Expr, flags, truth []bool, path string) int {
+	w, _ := refLookup(exprs, flags, truth, path)
+
+	return w
+}
+
 func build(exprs []string, flags []bool) (*radixtree.Tree[int], error) {
 	t := radixtree.New[int]()
 
